@@ -135,6 +135,16 @@ def model_term(qmin, s0, qmax, r, lorch):
     return 2 / math.pi * float(np.sum(wq * f))
 
 
+def cancel_mag(qmin, s0, qmax, ri, lorch):
+    """magnitude of the terms the closed forms subtract from each other (they cancel catastrophically for small Qmin*r: rounding, not the property)"""
+    v = qmin * ri
+    if lorch:
+        a = math.pi / qmax
+        return ((abs(qmin * (ri - a)) + 2) / (ri - a) ** 2 + (abs(qmin * (ri + a)) + 2) / (ri + a) ** 2) / (2 * a) * abs(s0) / qmin \
+            + (1 / abs(ri - a) + 1 / abs(ri + a)) / (2 * a)
+    return (2 * abs(v) + abs(v * v - 2) + 2) / abs(ri) ** 3 * abs(s0) / qmin + (1 + abs(v)) / ri ** 2
+
+
 def oracle(pystog, case, res):
     """(corrected - uncorrected) G(r), after converting the output back to G(r), equals (2/pi) Int_0^Qmin Q[S_lin(Q)-1] W(Q) sin(Qr) dQ
     (Gauss-Legendre, 1e-7 relative to the term's magnitude); zero when Qmin = 0; zero at r = 0; unchanged when interior data change;
